@@ -189,7 +189,7 @@ def run(rng, res, tier, shard, nshards):
         hist = gen_history(rng, lang, rng.randint(1, 60), invalid=0.2)
         first = run_history(spec, hist, res, lang_graph=lg2, factory=fac2)
         res.case(digest([name, hist]) if nontrivial(hist) else None)
-        if res.evaluations % 499 == 3:
+        if len(res.samples) < 3 and nontrivial(hist):
             res.sample({'language': name, 'history': hist[:14]})
         if first:
             small = shrink_history(spec, hist, first[0]) if not first[0].startswith('harness') else hist
